@@ -110,14 +110,22 @@ class SchedLock(object):
 
     def release(self):
         s = self.sched
+        name = getattr(TLS, "name", None)
+        freed = False
         with s.cv:
+            if self.owner != name or self.count <= 0:
+                raise RuntimeError("cannot release un-acquired lock")        # as threading.RLock does
             self.count -= 1
             if self.count == 0:
                 self.owner = None
                 s.blocked -= self.waiters
                 self.waiters.clear()
                 s.clock += 1
-                self.events.append((s.clock, getattr(TLS, "name", None), "released"))
+                self.events.append((s.clock, name, "released"))
+                freed = True
+        if freed:
+            # whoever waits for the lock may run now: a lock given up in the middle of a request is a scheduling point
+            s.yield_("lock-released")
 
     __enter__ = acquire
 
@@ -196,6 +204,16 @@ WORKLOADS = {
             "alice": ((1, 2), [("Activate", {"uid": 1}), ("Destroy", {"uid": 1}), ("Locate", {"filters": []})]),
             "bob": ((1, 4), [("Revoke", {"uid": 1, "code": "KEY_COMPROMISE"}), ("GetAttributes", {"uid": 1, "names": ["State", "Sensitive"]})]),
             "carol": ((2, 0), [("GetAttributeList", {"uid": 1}), ("Query", {})]),
+        }},
+    # a long operation (key pair generation) of one client against short requests of another, different versions
+    "keypair": {
+        "setup": [],
+        "threads": {
+            "alice": ((1, 2), [("CreateKeyPair", {"common": [{"name": "Cryptographic Algorithm", "v": "RSA"}, {"name": "Cryptographic Length", "v": 1024}],
+                                                  "priv": [{"name": "Cryptographic Usage Mask", "v": ["SIGN"]}],
+                                                  "pub": [{"name": "Cryptographic Usage Mask", "v": ["VERIFY"]}]}),
+                               ("Get", {"uid": 2}), ("Locate", {"filters": []})]),
+            "bob": ((1, 0), [("Query", {}), ("Locate", {"filters": []}), ("Get", {"uid": 2}), ("GetAttributeList", {"uid": 1})]),
         }},
     # batches racing on the ID placeholder
     "placeholder": {
